@@ -4,7 +4,7 @@ well's contents; addressed set from the reference addressing model), LOCAL (othe
 the shape rule (1->N, N->1, equal shapes; anything else rejected); directly and as recipe steps."""
 from __future__ import annotations
 
-from .common import shard, run_cases, BASE_ASSUMPTIONS
+from .common import shard, run_cases, BASE_ASSUMPTIONS, repo_suite, repo_suite_job
 
 ID = 'C07'
 LEVEL = 'exploration'
@@ -31,6 +31,13 @@ def required_buckets(tier):
 
 
 def plan(tier, seed):
+    jobs = _plan(tier, seed)
+    if tier != 'quick' or False:
+        jobs = jobs + repo_suite_job()
+    return jobs
+
+
+def _plan(tier, seed):
     if tier == 'quick':
         return shard('history', 200, 8) + shard('shapes', 4, 4) + shard('recipe', 120, 3) + shard('witness', 1, 1)
     return (shard('history', 5000, 32, big=True) + shard('shapes', 24, 8, big=True) + shard('recipe', 3000, 12)
@@ -38,6 +45,8 @@ def plan(tier, seed):
 
 
 def run_job(job):
+    if job['kind'] == 'repo_suite':
+        return run_cases(job, repo_suite)
     fn = {'history': history, 'shapes': shapes, 'witness': witness, 'recipe': recipe}[job['kind']]
     return run_cases(job, fn)
 
